@@ -12,6 +12,7 @@ import (
 func init() {
 	vk.Register("C19", "long", runLong)
 	vk.Register("C19", "marathon", runMarathon)
+	vk.Register("C19", "indep", runIndep)
 }
 
 // longKinds are the element kinds of the long leg (a stream of 2^19 .. 2^21
@@ -191,4 +192,28 @@ func TestLawTable(t *testing.T) {
 		}
 		t.Logf("size 2, n = 2^20: P(k >= %d) = %.4f, P(k >= %d and Len = 1) = %.4f", j, all, j, vis)
 	}
+}
+
+// TestC19Indep: counters constructed in a row must not replay each other's coins.
+func TestC19Indep(t *testing.T) {
+	h := vk.Start(t, "C19", "indep")
+	slot := h.Slot()
+	tl := vk.NewTally()
+	cases := []IndepCase{{N: 600, Size: 4, D: 400}, {N: 300, Size: 2, D: 200}}
+	if h.Thorough() {
+		cases = append(cases, IndepCase{N: 2600, Size: 5, D: 600}, IndepCase{N: 1100, Size: 16, D: 3000})
+	}
+	for _, c := range cases {
+		o := &vk.Obs{}
+		slot.Enter(c)
+		msg := vk.Guard(func() string { return runIndep(c, o) })
+		slot.Leave()
+		if msg != "" {
+			p := h.Fail(c, msg)
+			t.Fatalf("VK-VIOLATION property=C19 leg=indep replay=%s\n%s", p, msg)
+		}
+		tl.AddObs(o)
+		h.Sample(c, o.NT)
+	}
+	h.MergeTally(tl)
 }
